@@ -163,6 +163,34 @@ fn gen_c01(ctx: &mut Ctx) {
         let short = if line.len() > 300 { format!("{}...", &line[..300]) } else { line.clone() };
         ctx.monitor(!res.starts_with("OK "), "C01-no-truncation", &short, &res[..res.len().min(200)]);
     }
+    // ... also for blocks whose length only fits in more than 32 bits (zeroed reservations, never touched)
+    for len in [1u64 << 32, (1 << 32) + 1, (1 << 32) + 255, (1 << 32) + 256, (1 << 33) + 16, (1 << 32) - 1, (1 << 31) + 7] {
+        let line = format!("NEWZ {}", len);
+        let res = ctx.case(line.clone(), true, "data-constructor-4GiB");
+        ctx.monitor(res == "ER TOOLONG" || res == "UNAVAILABLE", "C01-no-truncation", &line, &res);
+        if res == "UNAVAILABLE" {
+            ctx.notes.insert("NEWZ".into(), "this machine could not reserve the zeroed address space for some 4 GiB blocks; those cases were not run".into());
+        }
+    }
+    // one frame after another with the same address, type, length and byte sum (hence the same checksum) but other data:
+    // whatever the codec remembers of the previous frame must not leak into the next
+    for (k, (d1, d2)) in [(vec![1u8, 2], vec![2u8, 1]), (vec![1, 2, 3], vec![3, 2, 1]), (vec![0x7F, 0, 0x7F, 0], vec![0, 0x7F, 0, 0x7F]), (vec![0x10; 16], { let mut v = vec![0x10u8; 16]; v[0] = 0x0F; v[15] = 0x11; v }), ((0..255u32).map(|i| i as u8).collect::<Vec<u8>>(), (0..255u32).rev().map(|i| i as u8).collect())]
+        .into_iter()
+        .enumerate()
+    {
+        let (a, t) = (0x0010 + k as u16, (k as u8) * 3);
+        for d in [&d1, &d2, &d1, &d2] {
+            rt_case(ctx, a, t, d, k % 2 == 0, "same-checksum-other-data");
+            let line = format!("ENC {} {} {}", a, t, hex_of_bytes(d));
+            ctx.case(line, true, "same-checksum-other-data");
+        }
+    }
+    // data that is itself the text of a frame (upper case, lower case, with and without CR LF, damaged)
+    for (k, inner) in [&b":00000101FE"[..], &b":01000502FFF9"[..], &b":01000502fff9\r\n"[..], &b":00000101FE\r\n"[..], &b":00000101FF"[..], &b":0000"[..], &b"::"[..]].iter().enumerate() {
+        for t in [0u8, 2, 0x42] {
+            rt_case(ctx, 0x0200 + k as u16, t, inner, k % 2 == 0, "frame-text-as-data");
+        }
+    }
     // the Data constructor: accepted exactly up to 255 bytes
     for len in [0usize, 1, 2, 16, 254, 255, 256, 257, 300, 511, 512, 767, 1000, 4351, 65535, 65536, 65537, 65791, 65792, 100000, 131072, 131327] {
         let line = format!("NEW {}", len);
@@ -242,6 +270,12 @@ fn gen_c02(ctx: &mut Ctx) {
         (0xFFFF, 0xFF, vec![0xFF; 255]),
         (0, 0, vec![0; 255]),
         (0x0102, 3, { let mut v: Vec<u8> = (0..252).map(|i| (i * 3 + 1) as u8).collect(); let n = v.len(); v[n - 4..].fill(0); v }),
+        // frames whose length, address, type and data bytes add up to exactly 65535 / 65534 / 65536 (a 16-bit sum at its
+        // edge): every raised digit must still be noticed
+        (0xFF00, 0, vec![0xFF; 255]),
+        (0xFE00, 0, vec![0xFF; 255]),
+        (0xFF01, 0, vec![0xFF; 255]),
+        (0xFF0F, 0, { let mut v = vec![0xFF; 255]; v[100] = 0xF0; v }),
     ];
     let nrand = if ctx.tier_thorough { 40 } else { 6 };
     for _ in 0..nrand {
@@ -265,7 +299,7 @@ fn gen_c02(ctx: &mut Ctx) {
             frames.push((oa, ot, d));
         }
     }
-    let structural: Vec<u8> = b":0123456789ABCDEFabcdefG\r\n\x00\xff /g@`".to_vec();
+    let structural: Vec<u8> = b":0123456789ABCDEFabcdefG\r\n\x00\xff /g@`+-".to_vec();
     for (fi, (a, t, d)) in frames.iter().enumerate() {
         let orig = format!("OK {}.{}.{}", a, t, hex_of_bytes(d));
         for nl in [false, true] {
@@ -414,7 +448,7 @@ fn gen_c02(ctx: &mut Ctx) {
 
 // ---------------------------------------------------------------------------------------------
 
-const SIGMA: &[u8] = b":0123456789ABCDEFabcdefG\r\n\x00\xff";
+const SIGMA: &[u8] = b":0123456789ABCDEFabcdefG\r\n\x00\xff+";
 
 fn dec_case(ctx: &mut Ctx, s: &[u8], class: &str) -> String {
     let line = format!("DEC {}", hex_of_bytes(s));
@@ -504,7 +538,7 @@ fn gen_c03(ctx: &mut Ctx) {
             }
         }
     }
-    ctx.notes.insert("exhaustive".into(), format!("all strings of length <= {} over the 28-symbol structural alphabet", maxlen));
+    ctx.notes.insert("exhaustive".into(), format!("all strings of length <= {} over the 29-symbol structural alphabet", maxlen));
     // decoding while a thread is being torn down (from the destructors of its thread-local objects): total there too
     for bad in [&b":01007F02FF7F"[..], &b":01007F02FF7E"[..], &b":00007F02007F"[..], &b":01007F02FF7"[..], &b"garbage"[..], &b":01007f02ff7f\r\n"[..], &b""[..]] {
         let line = format!("TLSD DEC {}", if bad.is_empty() { "-".to_string() } else { hex_of_bytes(bad) });
